@@ -55,6 +55,7 @@ type WKey struct {
 	PublicOf     string `json:"public_of,omitempty"`     // same key id, public material of this other pool key
 	MapUnder     string `json:"map_under,omitempty"`     // map key differs from the key id: "pool:<name>"
 	WithPrivate  bool   `json:"with_private,omitempty"`  // hand over the private half too
+	PublicRaw    string `json:"public_raw,omitempty"`    // replace the public material by this text
 }
 
 type World struct {
@@ -292,6 +293,14 @@ func Materialise(w World, root string) (*Built, error) {
 			return nil, err
 		}
 	}
+	// what an isolated verifier process needs (cmd/worker "verify")
+	vf := VerifyFile{Entry: w.Entry, LineNorm: w.LineNorm, Keys: b.VerifierKeyMap(), Params: w.Params}
+	for _, p := range b.IntermediatePEMs() {
+		vf.Intermediates = append(vf.Intermediates, string(p))
+	}
+	if vb, err := json.Marshal(vf); err == nil {
+		_ = os.WriteFile(filepath.Join(root, "verify.json"), vb, 0o644)
+	}
 	for _, f := range w.Product {
 		p := filepath.Join(b.ProductDir, f.Path)
 		if err := os.MkdirAll(filepath.Dir(p), 0o755); err != nil {
@@ -317,6 +326,9 @@ func (b *Built) VerifierKeyMap() map[string]intoto.Key {
 			key.KeyVal.Public = PoolKey(wk.PublicOf).PublicString()
 			key.KeyType = PoolKey(wk.PublicOf).Type
 			key.Scheme = PoolKey(wk.PublicOf).Scheme
+		}
+		if wk.PublicRaw != "" {
+			key.KeyVal.Public = wk.PublicRaw
 		}
 		id := key.KeyID
 		if strings.HasPrefix(wk.MapUnder, "pool:") {
@@ -513,4 +525,89 @@ func LinkFileName(step, keyID string) string {
 func MustJSON(v any) string {
 	b, _ := json.Marshal(v)
 	return string(b)
+}
+
+
+// VerifyFile is what Materialise leaves for an isolated verifier process.
+type VerifyFile struct {
+	Entry         string                `json:"entry"`
+	LineNorm      bool                  `json:"line_norm"`
+	Keys          map[string]intoto.Key `json:"keys"`
+	Params        map[string]string     `json:"params"`
+	Intermediates []string              `json:"intermediates"`
+}
+
+// VerifyResult is the isolated verifier's report.
+type VerifyResult struct {
+	Err     string   `json:"err,omitempty"`
+	LoadErr string   `json:"load_err,omitempty"`
+	Panic   string   `json:"panic,omitempty"`
+	Log     []string `json:"log,omitempty"`
+	Dropped []string `json:"dropped,omitempty"`
+	Done    bool     `json:"done"`
+}
+
+// VerifyIsolated performs one verification of a materialised world from inside a worker
+// process (no Built value needed: everything is read from the files Materialise wrote).
+func VerifyIsolated(root string) VerifyResult {
+	var res VerifyResult
+	data, err := os.ReadFile(filepath.Join(root, "verify.json"))
+	if err != nil {
+		res.Err = "harness: " + err.Error()
+		return res
+	}
+	var vf VerifyFile
+	if err := json.Unmarshal(data, &vf); err != nil {
+		res.Err = "harness: " + err.Error()
+		return res
+	}
+	b := &Built{Root: root, LinkDir: filepath.Join(root, "links"), ProductDir: filepath.Join(root, "product"), LogPath: filepath.Join(root, "exec.log"), LayoutPath: filepath.Join(root, "root.layout")}
+	b.W.Entry, b.W.LineNorm, b.W.Params = vf.Entry, vf.LineNorm, vf.Params
+	runRoot := filepath.Join(root, "run")
+	_ = os.RemoveAll(runRoot)
+	prod := filepath.Join(runRoot, "product")
+	if err := copyTree(b.ProductDir, prod); err != nil {
+		res.Err = "harness: " + err.Error()
+		return res
+	}
+	cwd := prod
+	if vf.Entry == "rundir" {
+		cwd = filepath.Join(runRoot, "cwd")
+		_ = os.MkdirAll(cwd, 0o755)
+	}
+	if err := os.Chdir(cwd); err != nil {
+		res.Err = "harness: " + err.Error()
+		return res
+	}
+	var pems [][]byte
+	for _, p := range vf.Intermediates {
+		pems = append(pems, []byte(p))
+	}
+	params := vf.Params
+	if params == nil {
+		params = map[string]string{}
+	}
+	func() {
+		defer func() {
+			if p := recover(); p != nil {
+				res.Panic = fmt.Sprint(p)
+			}
+		}()
+		layout, err := intoto.LoadMetadata(b.LayoutPath)
+		if err != nil {
+			res.LoadErr = err.Error()
+			return
+		}
+		if vf.Entry == "rundir" {
+			_, err = intoto.InTotoVerifyWithDirectory(layout, vf.Keys, b.LinkDir, prod, "", params, pems, vf.LineNorm)
+		} else {
+			_, err = intoto.InTotoVerify(layout, vf.Keys, b.LinkDir, "", params, pems, vf.LineNorm)
+		}
+		if err != nil {
+			res.Err = err.Error()
+		}
+	}()
+	res.Log = readLog(b.LogPath)
+	res.Done = true
+	return res
 }
